@@ -1,7 +1,7 @@
 // C19 driver: feeds scripted integrator outcomes to the *rendered* Naunet::Solve and prints what it did.
 // stdin, one script per line (cvode):   dt y0 mxsteps reset_mxsteps ncv (flag frac){ncv} nre (ok){nre}
 //                          (odeint):   dt y0 mxsteps reset_mxsteps nsteps          (reset_mxsteps < 0: no Reset call)
-// stdout per script:  flag y_first y_min y_max logged_y0_or_nan
+// stdout per script:  flag y_first y_min y_max logged_y0_or_nan ncvode_calls_made(-1 for odeint)
 #include <stdio.h>
 #include <stdlib.h>
 #include <string.h>
@@ -59,7 +59,11 @@ int main() {
         double logged = NAN;
         const char *p = strstr(log.c_str(), "y[0] = ");
         if (p) logged = atof(p + 7);
-        printf("%d %.17g %.17g %.17g %.17g\n", flag, ab[0], lo, hi, logged);
+#ifdef C19_ODEINT
+        printf("%d %.17g %.17g %.17g %.17g -1\n", flag, ab[0], lo, hi, logged);
+#else
+        printf("%d %.17g %.17g %.17g %.17g %d\n", flag, ab[0], lo, hi, logged, shim_cv_calls());
+#endif
     }
     return 0;
 }
